@@ -625,7 +625,10 @@ def reg_case(draw, shard, tier):
                             nu=d.u(0, 6.2),
                             # one in five: an orbit about another body, its local orbital frame declared with that
                             # body's frame as parent (probed at the orbit's own epoch)
-                            about=d.pick(None, None, None, None, "Moon", "Sun")))
+                            about=d.pick(None, None, None, None, "Moon", "Sun"),
+                            # one in three: the reference handed to orbit2frame is a TABLE of that orbit (an Ephem, 60 s
+                            # nodes, held in `frame`) instead of the orbit itself
+                            ref_as=d.pick("orbit", "orbit", "ephem")))
         elif kind == "attached":
             # a frame hanging off a frame generated earlier in the history (a station by preference):
             # the reference is a state vector / orbit EXPRESSED IN that frame, as a radar would give it
@@ -902,7 +905,13 @@ def check_registrations(case):
             # the reference orbit is dated `off` seconds BEFORE the probe (0 = the probe is exactly at its epoch)
             orb = Orbit(rv.tolist(), date - __import__("datetime").timedelta(seconds=off) if off else date, "cartesian",
                         op["frame"], "Kepler")
-            fr = orbit2frame_call(name, orb, op["orientation"], frames.get_frame(op["parent"]))
+            ref_obj = orb
+            if op.get("ref_as") == "ephem":
+                _td = __import__("datetime").timedelta
+                span = (date - orb.date).total_seconds()
+                ref_obj = orb.ephem(start=orb.date + _td(seconds=min(0.0, span) - 600.0),
+                                    stop=orb.date + _td(seconds=max(0.0, span) + 600.0), step=_td(seconds=60))
+            fr = orbit2frame_call(name, ref_obj, op["orientation"], frames.get_frame(op["parent"]))
             # absolute check (the relations below are all relative): the origin of the new frame is where the
             # oracle's two-body propagation puts the reference orbit at the probe date
             origin = arr(StateVector([0.0] * 6, date, "cartesian", name).copy(frame=op["frame"]))
